@@ -13,7 +13,7 @@ def run(patch):
         if a.returncode!=0: return patch,None,'does not apply: '+a.stderr.strip()[:150]
         alarms={}
         for p in props:
-            o=subprocess.run([f'{VERIF}/bin/rarecheck','-property',p,'-repo',wt,'-no-evidence'],capture_output=True,text=True)
+            o=subprocess.run([os.environ.get('RARECHECK_BIN', f'{VERIF}/bin/rarecheck'),'-property',p,'-repo',wt,'-no-evidence'],capture_output=True,text=True)
             if o.returncode!=0:
                 alarms[p]=[l[:300] for l in o.stdout.splitlines() if l.startswith('[violation]') or l.startswith('[undecided]')]
         return patch,alarms,''
